@@ -55,6 +55,8 @@ GROUPS.append(dict(STR, name="concatenate", entry="h_concatenate", unwind=16,
                    functions=["sexp.c:sexp_string_concatenate_op", "sexp.c:sexp_make_string_op", "sexp.c:sexp_make_bytes_op"],
                    bound="two strings of 1..3 characters joined by a one-character separator of every UTF-8 width"))
 META = {
+ "level": "other",
+ "explanation": 'mixed: the UTF-8 codec functions are proved for all scalar values; cursor/index conversion, string-set!, utf8->string! and concatenation are bounded by string shape (byte lengths enumerated, contents symbolic).',
  "trusted_base": ["CBMC 6.11.0 front end and SAT back end", "harness/prelude.h substitutions incl. kind tests on registered objects", "the independent strict UTF-8 decoder / encoder of the harness (RFC 3629) as the abstract view"],
  "assumptions": ["bounded groups: strings of up to 3 characters, UTF-8 width of each character enumerated per instance, scalar values symbolic"],
  "not_covered": ["sexp_substring_op / sexp_utf8_substring_op, sexp_string_to_utf8, sexp_c_string, string ports, string comparison", "cursor opcodes (range checks are under C01)",
